@@ -75,10 +75,11 @@ def insertKey {β : Type} (le : β → β → Bool) (x : β) : List β → List 
     keys differ in their protein only -/
 def sortKey {β : Type} (le : β → β → Bool) (l : List β) : List β := l.foldr (insertKey le) []
 
-/-- `group_digests`; `none` = the `digests[0]` index panic on an empty list -/
+/-- `group_digests`; an empty list gives no groups (guarded; it used to index `digests[0]` and panic).
+    Always `some`. -/
 def groupDigests (occs : List Occ) : Option (List Group) :=
   match sortKey (fun a b => keyLe (occKey a) (occKey b)) occs with
-  | [] => none
+  | [] => some []
   | d0 :: rest => some (groupLoop { pos := d0.pos, seq := d0.seq, prots := [] } (d0 :: rest))
 
 /-- `Fasta::digest` for target proteins: protein `i` contributes `C05.digest par proteinᵢ` -/
@@ -119,7 +120,7 @@ def mergeInto (same : Peptide α → Peptide α → Bool) (e : Entry α) : List 
 def mergeAll (same : Peptide α → Peptide α → Bool) (es : List (Entry α)) : List (Entry α) :=
   es.foldl (fun acc e => mergeInto same e acc) []
 
-/-- `Parameters::digest` on several target proteins; `none` = panic (no digest at all) -/
+/-- `Parameters::digest` on several target proteins (no digest at all: the empty database; never `none`) -/
 def database (h2o : α) (table : List α) (same : Peptide α → Peptide α → Bool) (par : Sage.C05.Params)
     (proteins : List (List UInt8)) (vars statics : List (Target × α)) (max : Nat) (lo hi : α) :
     Option (List (Entry α)) :=
